@@ -792,6 +792,7 @@ def monitor_lib(sc, g):
     active_snap = {}    # (lib, kb) -> {name: snapshot} of active rules as last seen
     inst_kb = {}
     inst_removed = {}
+    twins = {}
     for i, (o, r) in enumerate(zip(sc["ops"], rs)):
         kind = o.get("op")
         key = (o.get("lib"), o.get("kb"))
@@ -850,6 +851,16 @@ def monitor_lib(sc, g):
                     out.append(("C16", "rule-removed-on-instance-still-active", "op %d: %s" % (i, n)))
         if kind == "ptrcheck" and r.get("shared"):
             out.append(("C09", "shared-mutable-state", "op %d: %s" % (i, r["shared"][:3])))
+        if kind == "exec" and o.get("twin") and isinstance(r, dict) and "store" in r:
+            view = (json.dumps(r.get("out")), json.dumps(r.get("store")), [e[2] for e in (r.get("trace") or []) if e[0] == "x"])
+            if o["twin"] in twins:
+                j, other = twins[o["twin"]]
+                if o.get("det") and other != view:
+                    what = "outcome" if other[0] != view[0] else "facts" if other[1] != view[1] else "fired rules"
+                    out.append(("C12", "loaded-kb-behaves-differently", "ops %d/%d: the loaded knowledge base and the stored one differ in %s on the same facts: %s vs %s" % (
+                        j, i, what, str(other[2])[:120], str(view[2])[:120])))
+            else:
+                twins[o["twin"]] = (i, view)
     return out
 
 
@@ -874,7 +885,7 @@ def run_lib(ctx, tag):
                 "unchanged, instance creation always succeeds, instance = blueprint, no shared objects; non-trivial = history contains a removal or a rejected build")
     rng = Rng(ctx.seed * 15485863 + hash_tag(tag))
     n = ctx.n(600, 10000)
-    scs = corpus(ctx.prop) + [add_isolation_probes(gen_lib.scenario(rng.fork(), "%s-%d-%d" % (tag, ctx.seed, i), maxlen=ctx.n(10, 30)), rng) for i in range(n)]
+    scs = corpus(ctx.prop) + [add_isolation_probes(gen_lib.scenario(rng.fork(), "%s-%d-%d" % (tag, ctx.seed, i), maxlen=ctx.n(10, 30), focus=ctx.prop if i % 2 else None), rng) for i in range(n)]
     for i in range(0, len(scs), 2000):
         out = pl.correspond(scs[i:i + 2000], jobs=ctx.jobs)
         for sc, g, l, status, detail in out:
@@ -902,7 +913,7 @@ def run_lib(ctx, tag):
             for owner, sig, det in monitor_lib(sc, g):
                 if owner == ctx.prop or (ctx.prop == "C16" and owner == "C17") or (ctx.prop == "C17" and owner in ("C16", "C09")):
                     res.violations.append({"signature": "monitor:" + sig, "detail": det, "scenario": sc})
-            for i2, kind, det in pl.compare_spec(sc, g, l):
+            for i2, kind, det in ([] if sc.get("no_oracle") else pl.compare_spec(sc, g, l)):
                 res.violations.append({"signature": "oracle:" + kind, "detail": det, "scenario": sc, "op_index": i2})
     return res
 
